@@ -191,15 +191,17 @@ def main():
     if not violations:
         import replay
         bl = []
-        corpus_specs = []
+        corpus_specs, inject_specs = [], []
         for wsc in spec.get("bounded", []):
             if wsc.get("kind") == "lib":
                 bl.extend(getattr(registry, wsc["witnesses"]))
             elif wsc.get("kind") == "corpus":
                 corpus_specs.append(wsc)
+            elif wsc.get("kind") == "inject":
+                inject_specs.append(wsc)
             else:
                 bl.append(wsc)
-        if corpus_specs or any(x.get("kind") != "cli" for x in bl):
+        if corpus_specs or inject_specs or any(x.get("kind") != "cli" for x in bl):
             okb, errb = replay.build()      # the replay crate is rebuilt from /repo's working tree
             if not okb:
                 print(f"UNDECIDED property={prop}: the replay crate does not build against the current tree: {errb[-300:]}")
@@ -229,6 +231,30 @@ def main():
                 wsc = dict(kind="corpusfile", file=(None if f["kind"] == "timeout" else f["file"]), opts=f["opts"], column_width=f["column_width"], fkind=f["kind"])
                 violations.append(dict(unit="cli", fs="-", label="bounded:" + wid, text="bounded corpus sweep (stand-in for formatters outside every contract)",
                                        diag=dict(message=f["detail"], fn="stylua_lib::format_code", rendered=json.dumps(f)[:3000]), res=None, scenario=wsc, scenario_result=f))
+        # comment-injection sweep (vx/inject.py): one comment at every token boundary of a fixed list of small programs
+        for cs in inject_specs:
+            import inject
+            try:
+                fails, stats = inject.run()
+            except Exception as e:
+                print(f"UNDECIDED property={prop}: comment-injection sweep did not run: {e}")
+                return 2
+            kinj = inject.load_known()
+            mine = [f for f in fails if f["kind"] in cs["kinds"]]
+            nk = 0
+            for f in mine:
+                wid = "inject:" + f["key"]
+                if f["key"] in kinj:
+                    nk += 1
+                    print(f"KNOWN-FINDING: property={prop} injected comment {f['key']} ({f['kind']}): {json.dumps(f['src'])} — {kinj[f['key']][1][:160]}")
+                    known_bounded.append(dict(prop=prop, label="bounded:" + wid, fn="*", text=kinj[f["key"]][1][:200]))
+                    continue
+                oracle = {"parse": "parse", "tree": "tree", "comments": "comments", "literals": "literals"}.get(f["kind"], "parse")
+                wsc = dict(src=f["src"], oracle=oracle, opts=dict(f["opts"], syntax=f["syntax"], column_width=str(f["column_width"])))
+                violations.append(dict(unit="cli", fs="-", label="bounded:" + wid, text="bounded comment-injection sweep (stand-in for formatters outside every contract)",
+                                       diag=dict(message=f["detail"], fn="stylua_lib::format_code", rendered=json.dumps(f)[:3000]), res=None, scenario=wsc, scenario_result=f))
+            bounded_runs.append(dict(scenario=f"comment-injection sweep: {stats['inputs']} inputs (one comment at every token boundary of {len(inject.SNIPPETS)} small programs, 3 comment forms) x {stats['configs']} configurations x column widths {stats['widths']} = {stats['runs']} runs; oracles {cs['kinds']}",
+                                     violated=len(mine) > nk, detail=f"{len(mine)} failing (input, oracle) pairs, {nk} of them listed in known_injections.txt"))
         for wsc in bl:
             try:
                 v, j = replay.run_witness(wsc)
